@@ -510,6 +510,123 @@ Proof.
       assert (Hlast : last (key :: c0 :: chain1) 0%Z = last chain1 0%Z) by (destruct HL1; reflexivity).
       rewrite Hlast in R2. now repeat split.
 Qed.
+
+(* ---- round 4: provenance in the own-universe branch, and "no other returned cell is
+   true at p" (C05's Verdict under universe_partition) -------------------------------- *)
+Lemma Forall2_combine_In {A B} (R : A -> B -> Prop) l l' a b :
+  Forall2 R l l' -> In (a, b) (combine l l') -> R a b.
+Proof.
+  induction 1 as [|x y l l' Hxy _ IH]; intros Hin; [contradiction|].
+  cbn [combine In] in Hin. destruct Hin as [E|Hin]; [injection E as <- <-; exact Hxy|now apply IH].
+Qed.
+
+(* the other returned cells: false at p whenever their descent has a value there *)
+Definition others_false (s1 s2 : state) (du : list (Z * list Z)) (key : Z) (ks : list Z)
+           (p : rvec) (ch : list Z) : Prop :=
+  S5.universe_partition T surf rvec sense s1 du ->
+  exists chs, Forall2 (S5.Represents T surf rvec tr_empty inv sense s1 du s2 key) ks chs /\ In ch chs /\
+    forall k' ch', In (k', ch') (combine ks chs) -> ch' <> ch ->
+      (exists b', LocB s1 du key p ch' b') -> Den s2 p (M5.TRef k') false.
+
+Theorem lattice_unique_owner_linked :
+  exists elems, develop_lattice_with RS (Ok vecs) cell = Ok elems /\
+  forall (fuel cf : nat) (s0 s1 s2 : state) (latkey : Z) (lcl : cell5) (keys : list Z)
+         (du : list (Z * list Z)) (ifd ifg : bool) (key : Z) (kcl : cell5) (U : Z) (ks : list Z),
+  Forall (fun e : relem => inverse_of (ne_trnsf e) /\ inverse_of (ne_filltr e)) elems ->
+  Inv s0 -> M5.dget latkey (M5.s_cells s0) = Some lcl ->
+  develop_state fuel latkey elems s0 = M5.Ok (keys, s1) ->
+  M5.dget key (M5.s_cells s1) = Some kcl -> M5.c_fill kcl = Some U ->
+  (forall k, In k keys -> In k (M5.du_get U du)) ->
+  (forall c cl, M5.dget c (M5.s_cells s1) = Some cl -> M5.c_orig cl = []) ->
+  (forall u c, In c (M5.du_get u du) -> exists cl, M5.dget c (M5.s_cells s1) = Some cl) ->
+  M5.pot_fill T surf tr_empty teqb tr_surf fuel cf du ifd ifg key s1 = M5.Ok (ks, s2) ->
+  forall idx, in_ranges idx bs ->
+    let t := lattice_point vecs idx in
+    let u := nth (Z.to_nat (flat_index bs idx)) spec 0%Z in
+    u <> 0%Z ->
+    forall p, let p' := S5.frame T rvec tr_empty inv kcl p in
+    Den s1 p (M5.c_geom kcl) true ->
+    Den s0 (vdiff RS p' t) (M5.TRef latkey) true ->
+    (* own universe: the returned cell, its provenance (lattice element, container), and
+       every other returned cell is false at p *)
+    (u = lc_universe cell ->
+       exists k ke ncl, In k ks /\ In ke keys /\ M5.dget k (M5.s_cells s2) = Some ncl /\
+         Den s2 p (M5.TRef k) true /\ M5.c_fill ncl = None /\
+         M5.c_mat ncl = M5.c_mat lcl /\ M5.c_rho ncl = M5.c_rho lcl /\
+         M5.c_orig ncl = S5.prov [key; ke] /\ others_false s1 s2 du key ks p [key; ke]) /\
+    (u <> lc_universe cell ->
+       forall q c ch, In c (M5.du_get u du) -> p' = vadd RS (placement cell q) t ->
+       Located s1 du c q ch ->
+       exists k ke ncl lfl, In k ks /\ In ke keys /\
+         M5.dget k (M5.s_cells s2) = Some ncl /\ Den s2 p (M5.TRef k) true /\
+         M5.dget (last ch 0%Z) (M5.s_cells s1) = Some lfl /\
+         M5.c_fill ncl = None /\ M5.c_mat ncl = M5.c_mat lfl /\ M5.c_rho ncl = M5.c_rho lfl /\
+         M5.c_orig ncl = S5.prov (key :: ke :: ch) /\ others_false s1 s2 du key ks p (key :: ke :: ch)).
+Proof.
+  destruct (develop_lattice_located_ranges cell vecs bs spec Hfill Hne Hwf Hlen Hn Hpad Hshape)
+    as (elems & H1 & H2 & _ & H4).
+  exists elems. split; [exact H1|].
+  intros fuel cf s0 s1 s2 latkey lcl keys du ifd ifg key kcl U ks Hinv HI0 Hlat Hdev Hkey HU Hkeys
+         Horig Hdu Hpf idx Hidx t u Hu p p' Hcont Hunit.
+  pose proof (develop_lattice_is12 cell vecs elems Hshape H1) as H12.
+  assert (Hnn : Forall (fun e : relem => is_nil (ne_trnsf e) = false) elems).
+  { eapply Forall_impl; [|exact H12]. intros e [A _]. now apply is12_not_nil. }
+  destruct (develop_state_spec fuel latkey lcl elems s0 keys s1 HI0 Hlat Hnn Hdev) as (HI1 & Hx01 & HF).
+  destruct (P5.pot_fill_located T surf rvec tr_empty teqb tr_surf inv sense sense_tr teqb_sound
+              fuel cf du ifd ifg key s1 ks s2 HI1 Horig Hdu (ex_intro _ kcl Hkey) Hpf)
+    as (_ & _ & chs & HP & HRep & HLoc).
+  pose proof (develop_lattice_complete cell vecs bs spec elems Hne Hwf Hlen H2) as Hcomp.
+  assert (Hidx' : In idx (map (@ne_index R) elems)) by (apply Hcomp; now split).
+  apply in_map_iff in Hidx' as (e & Hei & He).
+  rewrite Forall_forall in H4, H12, Hinv.
+  destruct (H4 e He) as (_ & _ & (Htr & Hf & Hftr)). cbv zeta in Htr, Hf, Hftr.
+  rewrite Hei in Htr, Hf, Hftr. fold t in Htr, Hftr. fold u in Hf.
+  destruct (H12 e He) as [H12a H12b]. destruct (Hinv e He) as [[Ia1 Ia2] [Ib1 Ib2]].
+  destruct (Forall2_In_l _ _ _ e HF He) as (ke & Hke & (cl & Hcl & Ef & Eft & Em & Er & Eo & _ & HD)).
+  assert (Hpull : inv (ne_trnsf e) p' = vdiff RS p' t).
+  { rewrite <- (vadd_vdiff p' t) at 1. rewrite <- Htr. apply Ia2. }
+  assert (Helem : Den s1 p' (M5.c_geom cl) true).
+  { rewrite <- Hpull in Hunit. apply HD in Hunit.
+    destruct (P5.Den_ref_inv T surf rvec sense _ _ _ _ Hunit) as (cl' & Hc' & Hg).
+    rewrite Hcl in Hc'. now injection Hc' as <-. }
+  assert (Hothers : forall ch, Located s1 du key p ch -> others_false s1 s2 du key ks p ch).
+  { intros ch HL Hpart. destruct (HLoc p ch HL) as (Hin & HV). exists chs.
+    split; [exact HRep|]. split; [exact Hin|].
+    intros k' ch' Hpair Hneq (b' & Hb').
+    destruct (Forall2_combine_In _ _ _ _ _ HV Hpair) as [_ V2]. exact (V2 Hpart Hneq b' Hb'). }
+  split.
+  - intros Eu.
+    assert (Hfe : M5.c_fill cl = None) by (rewrite Ef, Hf; replace (u =? lc_universe cell)%Z with true by lia; reflexivity).
+    assert (HL : Located s1 du key p [key; ke]).
+    { unfold S5.Located.
+      refine (S5.LBFill T surf rvec tr_empty inv sense s1 du key kcl U p ke [ke] true true
+                Hkey HU (Hkeys _ Hke) Hcont _).
+      eapply S5.LBLeaf; [exact Hcl|exact Hfe|exact Helem]. }
+    destruct (HLoc p _ HL) as (Hin & HV).
+    destruct (Forall2_pick _ _ _ _ _ HRep HV Hin) as (k & Hk & (ncl & lfl & R1 & R2 & R3 & R4 & R5 & R6 & _) & (V1 & _)).
+    exists k, ke, ncl. split; [exact Hk|]. split; [exact Hke|]. split; [exact R1|]. split; [now apply V1|].
+    cbn [last] in R2. rewrite Hcl in R2. injection R2 as <-.
+    split; [exact R3|]. split; [now rewrite R5|]. split; [now rewrite R6|]. split; [exact R4|].
+    exact (Hothers _ HL).
+  - intros Eu q c ch Hc Hp' HLc.
+    assert (Hfe : M5.c_fill cl = Some u) by (rewrite Ef, Hf; replace (u =? lc_universe cell)%Z with false by lia; reflexivity).
+    assert (Hframe : S5.frame T rvec tr_empty inv cl p' = q).
+    { unfold S5.frame. rewrite Eft, (is12_not_nil _ H12b). rewrite Hp', <- Hftr. apply Ib2. }
+    assert (HL : Located s1 du key p (key :: ke :: ch)).
+    { unfold S5.Located.
+      refine (S5.LBFill T surf rvec tr_empty inv sense s1 du key kcl U p ke (ke :: ch) true (true && true)
+                Hkey HU (Hkeys _ Hke) Hcont _).
+      refine (S5.LBFill T surf rvec tr_empty inv sense s1 du ke cl u p' c ch true true
+                Hcl Hfe Hc Helem _).
+      rewrite Hframe. exact HLc. }
+    destruct (HLoc p _ HL) as (Hin & HV).
+    destruct (Forall2_pick _ _ _ _ _ HRep HV Hin) as (k & Hk & (ncl & lfl & R1 & R2 & R3 & R4 & R5 & R6 & _) & (V1 & _)).
+    exists k, ke, ncl, lfl. split; [exact Hk|]. split; [exact Hke|]. split; [exact R1|].
+    split; [now apply V1|].
+    assert (Hlast : last (key :: ke :: ch) 0%Z = last ch 0%Z).
+    { destruct HLc; reflexivity. }
+    rewrite Hlast in R2. repeat split; try assumption. exact (Hothers _ HL).
+Qed.
 End Linked.
 End Link.
 
